@@ -152,7 +152,7 @@ def impl_one(case):
             if len(asts) != 1: res = f"NEXPR {len(asts)}"
             else:
                 r = interpret.evaluate(M.formatter(AS.Expr(asts[0], AS.Env([], [])), False), debugger=rec)
-                if case.get("floats"): r = canon_floats(r)
+                if case.get("floats", True): r = canon_floats(r)
                 res = "V " + ",".join(str(ord(c)) for c in r)
         except AS.UnsuspectedHangeulError as e:
             res = "E " + ",".join(str(v.value) if isinstance(v, AS.Integer) else "?" for v in e.err.value) + " @" + ";".join(f"{m.line_no}:{m.start_col}:{m.end_col}" for m in e.err.metadatas)
